@@ -196,6 +196,8 @@ Section Proofs.
     - rewrite S', Ei. lia.
   Qed.
 
+End Proofs.
+
   (* any lookup on any table whose buffer is at least as long as its size:
      null, or a NUL-terminated string wholly inside the section; never a fault *)
   Theorem lookup_safe b size i :
@@ -215,4 +217,3 @@ Section Proofs.
 
   Theorem lookup_null_safe size i : get_string_raw None size i = Ok None.
   Proof. reflexivity. Qed.
-End Proofs.
